@@ -184,6 +184,22 @@ func checkValueC18(c *h.Ctx, v *dtVal) {
 	default:
 		c.Held("parse.roundtrip")
 	}
+	// ... also when the value a previous ParseTime of the same text returned
+	// has meanwhile been used as a JSON decode target (values are handed out
+	// as pointers; what a caller does to one must not reach the next caller)
+	if ok {
+		if um, isUm := back.(json.Unmarshaler); isUm {
+			other := map[string]string{"date": `"1999-12-31"`, "time": `"01:02:03"`, "timetz": `"01:02:03+05:30"`, "timestamp": `"1999-12-31T01:02:03"`, "timestamptz": `"1999-12-31T01:02:03+05:30"`}[v.typ]
+			if other != `"`+exp+`"` && um.UnmarshalJSON([]byte(other)) == nil {
+				again, ok2 := types.ParseTime(ctx, got, -1)
+				if !ok2 || !sameDT(v.v, again) {
+					c.Violate("parse.roundtrip", feat("kind", "depends-on-earlier-result"), fmt.Sprintf("ParseTime(%q) = %v after the result of the previous ParseTime(%q) was overwritten by UnmarshalJSON(%s)", got, again, got, other), v.caseOf())
+				} else {
+					c.Held("parse.roundtrip")
+				}
+			}
+		}
+	}
 	// JSON round trip.
 	js, err := json.Marshal(v.v)
 	if err != nil {
